@@ -84,6 +84,7 @@ type Backoff struct {
 	hitCounters      *cache.Cache
 	allowlist        Allowlist
 	respSzEst        datasize.ByteSize
+	period           time.Duration
 	count            uint
 	ipv4Count        uint
 	ipv4Interval     time.Duration
@@ -104,6 +105,7 @@ func NewBackoff(c *BackoffConfig) (l *Backoff) {
 		hitCounters:      cache.New(c.Duration, c.Duration),
 		allowlist:        c.Allowlist,
 		respSzEst:        c.ResponseSizeEstimate,
+		period:           c.Period,
 		count:            c.Count,
 		ipv4Count:        c.IPv4Count,
 		ipv4Interval:     c.IPv4Interval,
@@ -215,13 +217,22 @@ func (l *Backoff) incBackoff(key string) {
 // hasHitRateLimit checks if the value of requests for given subnet hit the
 // maximum count of requests per given interval.
 func (l *Backoff) hasHitRateLimit(subnetIPStr string, count uint, ivl time.Duration) (ok bool) {
+	// Keep the counter of an active subnet alive.  The counters live in a cache
+	// whose items expire a fixed time after they have been added, so without
+	// this a subnet's sliding window would be forgotten, and a fresh allowance
+	// given, every time its item expires.
+	lifetime := max(l.period, 2*ivl)
+
 	var r *RequestCounter
-	rVal, ok := l.reqCounters.Get(subnetIPStr)
+	rVal, exp, ok := l.reqCounters.GetWithExpiration(subnetIPStr)
 	if ok {
 		r = rVal.(*RequestCounter)
+		if time.Until(exp) < ivl {
+			l.reqCounters.Set(subnetIPStr, r, lifetime)
+		}
 	} else {
 		r = NewRequestCounter(count, ivl)
-		l.reqCounters.SetDefault(subnetIPStr, r)
+		l.reqCounters.Set(subnetIPStr, r, lifetime)
 	}
 
 	above := r.Add(time.Now())
